@@ -83,6 +83,99 @@ def run_variant(kind, snap, op):
     return impl, post
 
 
+QUERY_FUNCS = {
+    "exists": lambda f, p: f.exists(p),
+    "isdir": lambda f, p: f.isdir(p),
+    "isfile": lambda f, p: f.isfile(p),
+    "listdir": lambda f, p: sorted(f.listdir(p)),
+    "isempty": lambda f, p: f.isempty(p),
+    "getsize": lambda f, p: f.getsize(p) if f.isfile(p) else -1,
+    "gettype": lambda f, p: int(f.gettype(p)),
+    "getinfo": lambda f, p: _info_key(f.getinfo(p, namespaces=["details", "access"])),
+    "scandir": lambda f, p: sorted(_info_key(i) for i in f.scandir(p, namespaces=["details", "access"])),
+    "filterdir": lambda f, p: sorted(_info_key(i) for i in f.filterdir(p, namespaces=["details"])),
+    "readbytes": lambda f, p: f.readbytes(p),
+    "hash": lambda f, p: f.hash(p, "md5"),
+    "getsyspath": lambda f, p: f.getsyspath(p),
+    "hassyspath": lambda f, p: f.hassyspath(p),
+    # walkers report paths built on the spelling they were given: compared up to normalisation
+    "walk.files": lambda f, p: sorted(norm(x) for x in f.walk.files(p)),
+    "walk.dirs": lambda f, p: sorted(norm(x) for x in f.walk.dirs(p)),
+    "opendir-listdir": lambda f, p: sorted(f.opendir(p).listdir("/")),
+}
+
+
+def _info_key(i):
+    raw = i.raw
+    d = dict(raw.get("details", {}))
+    d.pop("accessed", None)
+    d.pop("_write", None)
+    return (i.name, i.is_dir, repr(sorted(d.items())), repr(sorted(raw.get("access", {}).items())))
+
+
+def query_all(f, name, p):
+    try:
+        return ("ok", H.with_watchdog(lambda: QUERY_FUNCS[name](f, p), 10))
+    except BaseException as e:  # noqa
+        return ("err", H.exc_name(e))
+
+
+def same_object_phase(rep, rng, kinds, n_hist, k):
+    """queries are pure: on ONE live object, after any history, every equivalent spelling of a
+    path must give the same answer (catches state kept per raw spelling: caches, mount tables)"""
+    for kind in kinds:
+        for h in range(n_hist):
+            b = H.make_backend(kind)
+            try:
+                snap = H.snapshot(b.fs) or []
+                log = []
+                for i in range(rng.randint(4, 14)):
+                    if rng.random() < 0.45:
+                        # a query in ONE random spelling (this is what may poison per-spelling state)
+                        qn = rng.choice(list(QUERY_FUNCS))
+                        cp = clean_path(rng, snap)
+                        sp = rng.choice(spellings(rng, cp, snap, k))
+                        query_all(b.fs, qn, sp)
+                        log.append([qn, sp])
+                    else:
+                        op = H.gen_op(rng, snap, ["a", "b", "c d"], spelling=False)
+                        if not S.steer(kind, op) or op[0] in H.QUERIES:
+                            continue
+                        # mutate through the wrapped filesystem when there is one (the documented
+                        # use of a directory cache is a filesystem that changes underneath)
+                        target = b.inner[0] if kind.startswith("cachedir") and rng.random() < 0.7 else b.fs
+                        H.apply_op(target, op)
+                        log.append(H.op_json(op))
+                        snap = H.snapshot(b.inner[0] if kind.startswith("cachedir") else b.fs) or snap
+                # now compare all spellings of several paths for every query
+                for _ in range(3):
+                    cp = clean_path(rng, snap)
+                    sps = [sp for sp in spellings(rng, cp, snap, k) if _same_norm(sp, cp)]
+                    for qn in QUERY_FUNCS:
+                        res = [(sp, query_all(b.fs, qn, sp)) for sp in sps]
+                        rep.evaluations += len(res)
+                        rep.nontrivial("same-object", kind, qn, cp, h)
+                        ref = res[0]
+                        for r in res[1:]:
+                            if r[1] != ref[1]:
+                                rep.violation({"backend": kind, "history": log[-12:], "query": qn, "spelling_a": ref[0], "spelling_b": r[0],
+                                               "a": repr(ref[1])[:300], "b": repr(r[1])[:300]},
+                                              "%s.%s: on one object, spellings %r and %r answer differently: %s vs %s (after %r)" % (
+                                                  kind, qn, ref[0], r[0], repr(ref[1])[:120], repr(r[1])[:120], log[-5:]),
+                                              found_input=True, signature="C11/%s/%s/same-object" % (kind, qn))
+                                break
+            finally:
+                b.close()
+            rep.programs += 1
+
+
+def _same_norm(a, b):
+    try:
+        return norm(a) == norm(b)
+    except Exception:
+        return False
+
+
 def run(rep, tier, seed, deep=False):
     drv = vlib.Driver()
     rng = vlib.rng_for(seed, "c11")
@@ -142,6 +235,8 @@ def run(rep, tier, seed, deep=False):
                                               kind, name, ref[0][1:], r[0][1:], what, ref[1], r[1], [e[:2] for e in snap][:8]),
                                           found_input=True, signature="C11/%s/%s/%s" % (kind, name, what))
                             break
+        same_object_phase(rep, rng, KINDS + ["cachedir-os", "mount-nested", "multi2"], 8 if quick else 150, k)
+        same_object_phase(rep, rng, ["cachedir-mem", "mount", "mount-nested"], 60 if quick else 600, k)
         rep.sample({"clean": "a/b", "spellings": spellings(rng, "a/b", [("D", "a"), ("F", "a/b", b"")], 8)})
     finally:
         H.cleanup_scratch()
